@@ -7,6 +7,7 @@ import (
 
 	"github.com/buildkite/go-pipeline/ordered"
 	"github.com/buildkite/go-pipeline/warning"
+	"gopkg.in/yaml.v3"
 )
 
 // C13 (structural half) - parsing a decoded document is total and complete.
@@ -34,9 +35,9 @@ func vpMapOf(kv ...any) *ordered.MapSA {
 
 // vpGenEntry draws one entry of a step sequence.
 func vpGenEntry(depth int) (any, vpWantStep) {
-	max := 12
+	max := 13
 	if depth > 0 {
-		max = 14
+		max = 15
 	}
 	switch vpInt(0, max) {
 	case 0:
@@ -81,7 +82,12 @@ func vpGenEntry(depth int) (any, vpWantStep) {
 		return vpMapOf("type", 5), vpWantStep{kind: -1}
 	case 12:
 		return nil, vpWantStep{kind: -1}
-	case 13: // group with children
+	case 13: // a null primary key next to one of its aliases
+		if vpBool() {
+			return vpMapOf("group", nil, "label", "l", "steps", []any{}), vpWantStep{kind: vpKGroup}
+		}
+		return vpMapOf("command", "c", "key", nil, "id", "i", "label", nil, "name", "n"), vpWantStep{kind: vpKCommand}
+	case 14: // group with children
 		n := vpInt(0, 2)
 		var kids []any
 		w := vpWantStep{kind: vpKGroup}
@@ -224,6 +230,8 @@ func vpH_c13_steps() {
 		nf++
 	}
 	vpAssert(vpCountLeaves(err) == nf, "the warning reports each fallback exactly once (and nothing else)")
+	_, yerr := yaml.Marshal(p)
+	vpAssert(yerr == nil, "a usable pipeline marshals to YAML (node data model)")
 	b, merr := json.Marshal(p)
 	vpAssert(merr == nil, "a usable pipeline marshals to JSON")
 	if merr == nil {
